@@ -33,7 +33,7 @@ def gen_cases(tier, seed):
 def shard_setup(ctx):
     contracts.install()
     ctx.reach = None
-    if ctx.shard == 0:
+    if True:
         import nptdms.daqmx as dq
         ctx.reach = Reach({'get_daqmx_final_chunk_lengths': dq.get_daqmx_final_chunk_lengths,
                            'get_buffer_dimensions': dq.get_buffer_dimensions,
